@@ -14,10 +14,14 @@ SPEC = {
     "gen": ["anchors"],
     "required_theorems": [
         "C15_swap_preserves_WF", "C15_cutOuter_preserves_WF", "C15_cutInner_preserves_WF", "C15_collapse_preserves_WF",
-        "C15_error_leaves_map_unchanged", "C15_swap_guards", "C15_collapse_guards",
+        "C15_collapseA_refines", "C15_error_leaves_map_unchanged", "C15_swap_guards", "C15_collapse_guards",
+        "C15_collapse_choice_total", "C15_collapse_choice_error", "C15_collapse_choice_target",
         "C15_vanchor_merge_comm", "C15_vanchor_merge_idem", "C15_vanchor_merge_assoc", "C15_vanchor_merge_lower_dim",
-        "C15_vanchor_merge_fails_iff", "C15_cut_midpoint", "C15_cut_area_conserved",
-        "C15_D9_witness", "C15_swap_area_partial",
+        "C15_vanchor_merge_fails_iff", "C15_eanchor_merge_comm", "C15_eanchor_merge_assoc", "C15_fanchor_merge_comm",
+        "C15_fanchor_merge_assoc", "C15_anchor_conversions", "C15_cut_midpoint", "C15_cut_area_conserved",
+        "C15_cut_area_conserved_inner", "C15_swap_area_partial",
+        # one proved negation per listed finding (DESIGN §6.3)
+        "C15_D9_witness", "C15_D15a_witness", "C15_D15b_witness", "C15_D15c_witness", "C15_D15d_witness", "C15_D15e_witness",
     ],
     "trusted_base": [
         "Lean 4.33 kernel; axioms propext, Classical.choice, Quot.sound only",
